@@ -30,6 +30,10 @@ pub enum Case {
     OtherSpeed { h2: bool, method: String, path: String },
     Rproxy { origin_v6: bool, allow_private: bool, path: String, upgrade: bool, steer: String },
     HostBased { which: String },
+    /// a speedtest that runs longer than the session's idle timer (virtual clock)
+    LongTest { h2: bool, upload: bool },
+    /// a reverse-proxy host session whose client takes the response a few bytes at a time
+    RproxySlowClient { h2: bool, body: usize },
 }
 
 fn users() -> Vec<(String, String)> {
@@ -268,7 +272,8 @@ async fn run_case(c: &Case) -> Result<Obs, String> {
             let peer: SocketAddr = "198.51.100.7:40000".parse().unwrap();
             let mut obs = Obs::default();
             sys::take_connect_log();
-            let (io, d) = door::open(&world.ctx, VProtocol::Http1, "m.t", None, peer, 1 << 16);
+            // "slow-client": the client's transport takes a few bytes at a time
+            let (io, d) = door::open(&world.ctx, VProtocol::Http1, "m.t", None, peer, if steer == "slow-client" { 7 } else { 1 << 16 });
             let mut cl = H1Client::new(io);
             cl.send(&spec.h1_bytes()).await;
             // play the origin
@@ -327,7 +332,137 @@ async fn run_case(c: &Case) -> Result<Obs, String> {
             Ok(obs)
         }
         Case::HostBased { which } => host_based(which).await,
+        Case::LongTest { h2, upload } => long_test(*h2, *upload).await,
+        Case::RproxySlowClient { h2, body } => rproxy_slow_client(*h2, *body).await,
     }
+}
+
+/// The origin answers head and body in one write; the client of the reverse-proxy host has a tiny
+/// window (HTTP/2) / transport buffer (HTTP/1.1), so its sink takes the body piecemeal.
+async fn rproxy_slow_client(h2: bool, body: usize) -> Result<Obs, String> {
+    let origin = tokio::net::TcpListener::bind("127.0.0.1:0").await.map_err(|e| e.to_string())?;
+    let oaddr = origin.local_addr().unwrap();
+    let world = make_world(&Cfg { clients: users(), reverse_proxy: Some((oaddr, "/app".into())), reverse_proxy_hosts: vec!["r.t".into()], ..Cfg::default() })?;
+    let peer: SocketAddr = "198.51.100.7:40000".parse().unwrap();
+    let mut obs = Obs::default();
+    let (io, server) = tokio::io::duplex(if h2 { 1 << 16 } else { 7 });
+    let ctx = world.ctx.clone();
+    let proto = if h2 { VProtocol::Http2 } else { VProtocol::Http1 };
+    let d = door::Door { task: tokio::spawn(async move { vh::reverse_proxy_listen(&ctx, proto, vh::wrap_io(server, peer), "r.t".to_string()).await }) };
+    let mut spec = ReqSpec { method: "GET".into(), target: "https://r.t/app/data".into(), proxy_auth: None, headers: vec![] };
+    if !h2 {
+        spec.target = "/app/data".into();
+        spec.headers.push(("Host".into(), "r.t".into()));
+    }
+    let payload: Vec<u8> = (0..body).map(|i| b'a' + (i % 26) as u8).collect();
+    let mut wire = format!("HTTP/1.1 200 OK\r\nContent-Length: {body}\r\nConnection: close\r\n\r\n").into_bytes();
+    wire.extend_from_slice(&payload);
+    let serve = |mut os: tokio::net::TcpStream, wire: Vec<u8>| async move {
+        let _ = os.set_linger(Some(Duration::ZERO));
+        let mut got = vec![];
+        let t0 = std::time::Instant::now();
+        while !got.windows(4).any(|w| w == b"\r\n\r\n") && t0.elapsed() < Duration::from_secs(2) {
+            let mut tmp = [0u8; 2048];
+            let mut r = Box::pin(os.read(&mut tmp));
+            match door::until(&mut r, Duration::from_secs(1)).await {
+                Some(Ok(n)) if n > 0 => got.extend_from_slice(&tmp[..n]),
+                _ => break,
+            }
+        }
+        let mut w = Box::pin(os.write_all(&wire));
+        door::until(&mut w, Duration::from_secs(2)).await;
+        drop(w);
+        door::spin(50).await;
+        let mut sd = Box::pin(os.shutdown());
+        door::until(&mut sd, Duration::from_secs(1)).await;
+        drop(sd);
+        (os, got)
+    };
+
+    if !h2 {
+        let mut cl = H1Client::new(io);
+        cl.send(&spec.h1_bytes()).await;
+        let mut acc = Box::pin(origin.accept());
+        let Some(Ok((os, _))) = door::until(&mut acc, Duration::from_secs(2)).await else { return Err("the origin was not contacted".into()) };
+        drop(acc);
+        let (_os, got) = serve(os, wire).await;
+        obs.origin_request = got;
+        h1_until_close(&mut cl, &mut obs, true, Duration::from_secs(4)).await;
+
+    } else {
+        let mut cl = H2Client::connect_with(io, Some(5)).await?;
+        let mut st = cl.request(spec.h2_request()?, true).await?;
+        let mut acc = Box::pin(origin.accept());
+        let Some(Ok((os, _))) = door::until(&mut acc, Duration::from_secs(2)).await else { return Err("the origin was not contacted".into()) };
+        drop(acc);
+        let (_os, got) = serve(os, wire).await;
+        obs.origin_request = got;
+        h2_collect(&mut st, &mut obs, true, Duration::from_secs(4)).await;
+    }
+    d.task.abort();
+    Ok(obs)
+}
+
+/// A speedtest exchange that is still in progress when the session's idle timer (the TLS handshake
+/// timeout, 2 s here) has passed several times over, on a paused clock.
+async fn long_test(h2: bool, upload: bool) -> Result<Obs, String> {
+    let cfg = Cfg { clients: users(), speedtest: true, tls_timeout: Duration::from_secs(2), ..Cfg::default() };
+    let world = make_world(&cfg)?;
+    let peer: SocketAddr = "198.51.100.7:40000".parse().unwrap();
+    let mut obs = Obs::default();
+    // the session of a speedtest host: its handler owns the connection and its idle timer
+    let (io, server) = tokio::io::duplex(1 << 16);
+    let ctx = world.ctx.clone();
+    let proto = if h2 { VProtocol::Http2 } else { VProtocol::Http1 };
+    let d = door::Door { task: tokio::spawn(async move { vh::speedtest_listen(&ctx, proto, vh::wrap_io(server, peer)).await }) };
+    let path = if upload { "/speed/upload.html" } else { "/speed/1mb.bin" };
+    let mut spec = ReqSpec { method: if upload { "POST" } else { "GET" }.into(), target: format!("https://m.t{path}"), proxy_auth: None, headers: vec![] };
+    if upload {
+        spec.headers.push(("content-length".into(), "8".into()));
+    }
+    if !h2 {
+        spec.target = path.into();
+        spec.headers.push(("Host".into(), "m.t".into()));
+    }
+    async fn idle(steps: u32) {
+        for _ in 0..steps {
+            tokio::time::advance(Duration::from_millis(701)).await;
+            door::spin(30).await;
+        }
+    }
+    if !h2 {
+        let mut cl = H1Client::new(io);
+        let mut bytes = spec.h1_bytes();
+        if upload {
+            bytes.extend_from_slice(b"half");
+        }
+        cl.send(&bytes).await;
+        door::spin(40).await;
+        if upload {
+            idle(10).await; // 7 s of silence in the middle of the body
+            cl.send(b"rest").await;
+        } else {
+            // read a little, stay away for 7 s, read the rest
+            cl.pump(2).await;
+            idle(10).await;
+        }
+        h1_until_close(&mut cl, &mut obs, false, Duration::from_secs(5)).await;
+    } else {
+        let mut cl = H2Client::connect(io).await?;
+        let mut st = cl.request(spec.h2_request()?, !upload).await?;
+        if upload {
+            let _ = st.tx.send_data(bytes::Bytes::from_static(b"half"), false);
+            door::spin(40).await;
+            idle(10).await;
+            let _ = st.tx.send_data(bytes::Bytes::from_static(b"rest"), true);
+        } else {
+            door::spin(40).await;
+            idle(10).await;
+        }
+        h2_collect(&mut st, &mut obs, false, Duration::from_secs(5)).await;
+    }
+    d.task.abort();
+    Ok(obs)
 }
 
 /// host-selected channels through real TLS on loopback
@@ -546,12 +681,34 @@ fn judge(c: &Case, o: &Obs) -> Result<&'static str, Violation> {
                 Ok("upload-400")
             }
         }
+        Case::LongTest { h2, upload } => {
+            let p = if *h2 { "h2" } else { "h1" };
+            let what = if *upload { "upload" } else { "download" };
+            if o.status != Some(200) {
+                return Err(mk(format!("C18:long-{what}:not-200:{p}"), format!("a speedtest {what} that outlasts the session's idle timer was answered {:?} ({:?})", o.status, o.error)));
+            }
+            if !*upload && (o.body_len != MIB || !o.ended) {
+                return Err(mk(format!("C18:long-download:wrong-size:{p}"), format!("a slow 1 MiB download delivered {} bytes (ended: {})", o.body_len, o.ended)));
+            }
+            Ok("long-test-completes")
+        }
         Case::OtherSpeed { h2, method, path } => {
             let p = if *h2 { "h2" } else { "h1" };
             if o.status != Some(400) {
                 return Err(mk(format!("C18:speedtest:other-not-400:{method}:{p}"), format!("{method} {path} on the speedtest channel answered {:?}", o.status)));
             }
             Ok("speedtest-400")
+        }
+        Case::RproxySlowClient { h2, body } => {
+            let p = if *h2 { "h2" } else { "h1" };
+            if o.status != Some(200) {
+                return Err(mk(format!("C18:rproxy:slow-client:status:{p}"), format!("the origin's 200 reached the client as {:?} ({:?})", o.status, o.error)));
+            }
+            let want: Vec<u8> = (0..(*body).min(32)).map(|i| b'a' + (i % 26) as u8).collect();
+            if o.body_len != *body || o.body_head != want {
+                return Err(mk(format!("C18:rproxy:slow-client:body-{}:{p}", if o.body_len < *body { "truncated" } else { "changed" }), format!("the origin sent {body} body bytes with the head, the client received {} ({:?}...)", o.body_len, String::from_utf8_lossy(&o.body_head))));
+            }
+            Ok("proxied-to-slow-client")
         }
         Case::Rproxy { path, upgrade, steer, allow_private, origin_v6 } => {
             let origin = o.error.clone().unwrap_or_default();
@@ -653,7 +810,7 @@ fn cases(tier: Tier) -> Vec<Case> {
     for origin_v6 in [false, true] {
         for allow_private in [false, true] {
             for (path, upgrade) in [("/app/x", true), ("/app", true), ("/app/x", false), ("/other", true), ("/ap", true)] {
-                for steer in ["none", "absolute-uri", "host-header"] {
+                for steer in ["none", "absolute-uri", "host-header", "slow-client"] {
                     v.push(Case::Rproxy { origin_v6, allow_private, path: path.into(), upgrade, steer: steer.into() });
                 }
             }
@@ -661,6 +818,15 @@ fn cases(tier: Tier) -> Vec<Case> {
     }
     for w in ["ping-host", "speedtest-host-1mb", "speedtest-host-segment", "rproxy-host", "rproxy-host-private-allowed"] {
         v.push(Case::HostBased { which: w.into() });
+    }
+    for h2 in [false, true] {
+        for upload in [false, true] {
+            v.push(Case::LongTest { h2, upload });
+        }
+    }
+    // (reverse-proxy hosts are never served over HTTP/2: the TLS demultiplexer offers them HTTP/1.1 and HTTP/3 only)
+    for body in [1usize, 26, 300, 70_000, 600_000] {
+        v.push(Case::RproxySlowClient { h2: false, body });
     }
     v
 }
@@ -672,7 +838,7 @@ pub fn run(tier: Tier) -> i32 {
     let r = sweep_dyn(cs.len() as u64, 1, Duration::from_secs(tier.pick(55, 1500)), rt::workers(), |i| {
         let c = &cs[i as usize];
         let _g = crate::engine::watch::enter("C18:wedged".into(), json!({"case": c}).to_string());
-        let o = rt::run_real(run_case(c)).map_err(|e| Violation::new("C18:machinery", e, json!({"case": c})))?;
+        let o = if matches!(c, Case::LongTest { .. }) { rt::run_paused(run_case(c)) } else { rt::run_real(run_case(c)) }.map_err(|e| Violation::new("C18:machinery", e, json!({"case": c})))?;
         judge(c, &o).map(|k| {
             Cow::Owned(format!("{k}:{}", match c {
                 Case::Ping { h2, marker, .. } => format!("ping:{h2}:{marker}"),
@@ -681,6 +847,8 @@ pub fn run(tier: Tier) -> i32 {
                 Case::OtherSpeed { h2, .. } => format!("other:{h2}"),
                 Case::Rproxy { upgrade, steer, .. } => format!("rp:{upgrade}:{steer}"),
                 Case::HostBased { which } => which.clone(),
+                Case::LongTest { upload, .. } => format!("long:{upload}"),
+                Case::RproxySlowClient { h2, .. } => format!("rp-slow:{h2}"),
             }))
         })
     });
@@ -696,6 +864,6 @@ pub fn run(tier: Tier) -> i32 {
 
 pub fn replay(case: &serde_json::Value) -> Result<(), Violation> {
     let c: Case = serde_json::from_value(case["case"].clone()).map_err(|_| Violation::new("C18:machinery", "bad replay file", json!({})))?;
-    let o = rt::run_real(run_case(&c)).map_err(|e| Violation::new("C18:machinery", e, json!({})))?;
+    let o = if matches!(c, Case::LongTest { .. }) { rt::run_paused(run_case(&c)) } else { rt::run_real(run_case(&c)) }.map_err(|e| Violation::new("C18:machinery", e, json!({})))?;
     judge(&c, &o).map(|_| ())
 }
